@@ -88,6 +88,7 @@ def run(ctx):
         subsets.append(r.sample(rsuite.REPRESENTABLE, r.randint(3, len(rsuite.REPRESENTABLE))))
     pairs_per = 6 if ctx.tier == 'quick' else 30
     reqs, metas = [], []
+    remembered = []      # (representation object, member, its representation, description): re-evaluated at the very end of the run
     gvdebug.reset_gv_debug(False)
     try:
         for types in subsets:
@@ -174,6 +175,8 @@ def run(ctx):
                         what, b = mutate(r, a, tys, colors, is_state)
                         sa, sb = conv(a), conv(b)
                         ra, rb = rep.convert(sa), rep.convert(sb)
+                        if len(remembered) < 400 and r.random() < 0.05:
+                            remembered.append((rep, sa, ra, dict(base, member=gen.show_state(a))))
                         eq, req = (sa == sb), rep_equal(ra, rb)
                         case = dict(base, mutation=what, a=gen.show_state(a), b=gen.show_state(b), wire_a=a, wire_b=b)
                         ctx.case((tuple(tys), tuple(colors), kind, is_state, a, b), True, None)
@@ -197,6 +200,12 @@ def run(ctx):
                         reqs.append(rsuite.request(kind, tys, colors, is_state, a))
                         flat, floats = rsuite.flatten_impl(ra, rep.space, is_state)
                         metas.append((dict(case, wire_state=a), flat, floats, shape, is_state))
+        # a representation is a fixed function: many other representations (other kinds, other spaces) have been built and used since these
+        # results were recorded -- the same object must still give the same values for the same member
+        for rep, member, r0, desc in remembered:
+            ctx.case(('stable-over-time', repr(desc)), True, None)
+            if not rep_equal(rep.convert(member), r0):
+                ctx.violation(f'`{desc["kind"]}`: the representation of one and the same member changed after other representations were built and used', desc)
     finally:
         gvdebug.reset_gv_debug(None)
     answers = ctx.model(reqs)
@@ -215,6 +224,17 @@ def custom_type(ctx):
     from gym_gridverse.geometry import Shape
     from gym_gridverse.spaces import StateSpace
     Wall().type_index()
+    # encodings of a space do not depend on what ELSE is registered: representations built (and used) before a new type is registered
+    # give the same values afterwards, and so do representations built afterwards
+    probe_types = [gen.TY['Floor'], gen.TY['Wall'], gen.TY['Door'], gen.TY['Key']]
+    probe_cs = (((gen.FLOOR, gen.WALL, (gen.TY['Door'], 2, 4, None)), ((gen.TY['Key'], 0, 1, None), gen.FLOOR, (gen.TY['Door'], 1, 1, None))), (0, 0), 1, (gen.TY['Key'], 0, 4, None))
+    before = {}
+    for is_state in (True, False):
+        sp = (rsuite.state_space if is_state else rsuite.obs_space)(probe_types, [0, 1, 4], (2, 3))
+        conv = (lambda cs: wire.mkstate(cs)) if is_state else rsuite.as_obs
+        for kind in rsuite.KINDS:
+            rep = (rsuite.make_state_representation if is_state else rsuite.make_observation_representation)(kind, sp)
+            before[(is_state, kind)] = (rep, sp, conv, rep.convert(conv(probe_cs)))
 
     class VerifLava(Wall):          # noqa: D401  (subclassing registers it -- for this process only)
         pass
@@ -226,6 +246,14 @@ def custom_type(ctx):
             return
         if Wall() == VerifLava():
             ctx.violation('a registered subclass of Wall compares equal to Wall', {})
+        for (is_state, kind), (rep, sp, conv, r0) in before.items():
+            ctx.case(('registry-independence', is_state, kind), True, None)
+            r1 = rep.convert(conv(probe_cs))
+            fresh = (rsuite.make_state_representation if is_state else rsuite.make_observation_representation)(kind, sp)
+            r2 = fresh.convert(conv(probe_cs))
+            if not rep_equal(r0, r1) or not rep_equal(r0, r2):
+                ctx.violation(f'`{kind}` ({"state" if is_state else "observation"}): registering an unrelated grid-object type changed the encoding of a space that does not contain it',
+                              {'kind': kind, 'is_state': is_state})
         floor = reg.from_name('Floor')
         space = StateSpace(Shape(2, 2), [floor, Wall, VerifLava], [Color.NONE])
         from gym_gridverse.agent import Agent
